@@ -6,6 +6,9 @@ from . import configs, replay, universe
 from .build import MachineryFailure
 from .core import run_tlc_config
 
+import os
+WARM = bool(os.environ.get("VERIF_WARM"))   # setup: only fill the spec-only graph cache
+
 INV_PROP = {"CacheInv": "C03", "ForestInv": "C04", "NameIdxInv": "C10", "RefIdxInv": "C10",
             "BytesInv": "C19", "SymxInv": "C16"}
 
@@ -34,6 +37,8 @@ def _file(ctx, v):
 
 def stage_mc(ctx, name, *, workers=16, invariants=None, constraints=(), consts=None, timeout=3000):
     """role A: TLC checks the invariants on every reachable state of the configuration"""
+    if WARM:
+        return None
     r = run_tlc_config(name, emit=False, workers=workers, invariants=invariants, constraints=constraints,
                        consts=consts, timeout=timeout, coverage=True)
     _tlc_checked(ctx, name, r, "model checking")
@@ -56,6 +61,8 @@ def stage_graph(ctx, name, *, bases=(0,), invariants=None, consts=None, on_step=
     consts = consts or configs.get(name)
     r = result or run_tlc_config(name, emit=True, invariants=invariants, consts=consts)
     _tlc_checked(ctx, name, r, "transition dump")
+    if WARM:
+        return None
     if not r.records:
         raise MachineryFailure("no transitions printed for %s" % name)
     G = replay.Graph(r.records)
@@ -98,10 +105,16 @@ def behaviours(r, keys):
     import glob
     import os
     from . import tlaparse
-    base = [k for k in keys if k in replay.BASE_KEYS]
+    base = [k for k in keys if k in replay.BASE_KEYS and k != "shadowed"]
     for path in sorted(glob.glob(os.path.join(r.workdir, "sim", "b_*"))):
         states = tlaparse.parse_behaviour(open(path).read())
-        yield [{"op": st["op"], "post": {k: st[k] for k in base}} for st in states[1:]]
+        out = []
+        for st in states[1:]:
+            post = {k: st[k] for k in base}
+            if isinstance(st.get("obs"), dict):
+                post.update(st["obs"])        # derived fields the spec kept in obs (TrackObs)
+            out.append({"op": st["op"], "post": post})
+        yield out
 
 
 def run_behaviour(ctx, env, beh, name, base, on_step=None):
@@ -142,19 +155,40 @@ def run_behaviour(ctx, env, beh, name, base, on_step=None):
     return n, None, False
 
 
-def stage_sim(ctx, name, *, num, depth, bases=(0,), consts=None, invariants=None, on_step=None, seed=None):
+def stage_sim(ctx, name, *, num, depth, bases=(0,), consts=None, invariants=None, on_step=None, seed=None,
+              track_obs=False):
     """role B on a configuration too large to enumerate: TLC -simulate prints random behaviours of
     the specification, each is replayed on real objects"""
-    consts = consts or configs.get(name)
-    r = run_tlc_config(name, emit=False, workers=1, invariants=invariants, consts=consts, simulate=num,
-                       depth=depth, seed=(ctx.seed if seed is None else seed) + 1)
-    if r.errors:
-        raise MachineryFailure("simulate %s: %s" % (name, r.errors[0][:1500]))
-    behs = list(behaviours(r, consts["EmitKeys"]))
+    consts = dict(consts or configs.get(name), TrackObs=bool(track_obs))
+    if not track_obs:   # derived fields are not in a state dump: compare the variables only
+        consts["EmitKeys"] = {k for k in consts["EmitKeys"] if k in replay.BASE_KEYS and k != "shadowed"}
+    import gzip
+    import os
+    from . import core
+    sd = (ctx.seed if seed is None else seed) + 1
+    mod, files, cfgtext = configs.render(name, emit=False, invariants=invariants, consts=consts)
+    key = os.path.join(core.CACHE, "sim-%s-%s-%d-%d-%d.json.gz" % (name, core._spec_digest(files, cfgtext), num, depth, sd))
+    if os.path.exists(key) and not os.environ.get("VERIF_NO_CACHE"):
+        with gzip.open(key, "rt") as fh:
+            behs = json.load(fh)
+        cached = True
+    else:
+        r = run_tlc_config(name, emit=False, workers=1, invariants=invariants, consts=consts, simulate=num,
+                           depth=depth, seed=sd)
+        if r.errors:
+            raise MachineryFailure("simulate %s: %s" % (name, r.errors[0][:1500]))
+        behs = list(behaviours(r, consts["EmitKeys"]))
+        os.makedirs(core.CACHE, exist_ok=True)
+        with gzip.open(key + ".tmp", "wt") as fh:
+            json.dump(behs, fh)
+        os.replace(key + ".tmp", key)
+        cached = False
+    if WARM:
+        return None
     nrec = sum(len(b) for b in behs)
     ctx.transitions += nrec
     st = {"stage": "simulate-replay", "config": name, "behaviours": len(behs), "transitions_printed": nrec,
-          "depth": depth, "bases": [], "exhaustive": False}
+          "depth": depth, "behaviours_from_cache": cached, "bases": [], "exhaustive": False}
     ctx.exhaustive = False
     for base in bases:
         steps = div = trunc = 0
@@ -180,7 +214,7 @@ def stage_sim(ctx, name, *, num, depth, bases=(0,), consts=None, invariants=None
     if behs and len(ctx.samples) < 6:
         ctx.samples.append({"config": name, "behaviour": [replay.args_of(x["op"]) for x in behs[0][:12]]})
     ctx.stages.append(st)
-    return r
+    return None
 
 
 METHOD_PROP = {"byte_intervals_on": "C06", "byte_intervals_at": "C06", "sections_on": "C06", "sections_at": "C06",
@@ -192,6 +226,8 @@ METHOD_PROP = {"byte_intervals_on": "C06", "byte_intervals_at": "C06", "sections
 def judge_recorded(ctx, name, consts, rec):
     """role C: TLC judges every recorded lookup answer against the spec's fresh-scan operators"""
     from . import judge
+    if WARM:
+        return []
     rec.close()
     total, bad = judge.run_judge(name, consts, rec.path)
     ctx.evaluations += rec.n_queries
